@@ -311,16 +311,59 @@ func runC38(c *Ctx) {
 	}
 	// second loop: overlap among sorted content
 	var ovl *ssa.BinOp
-	for _, b := range lo.Blocks {
-		for _, in := range b.Instrs {
-			if bo, ok := in.(*ssa.BinOp); ok && bo.Op == token.LSS && VField(fCStart)(bo.X) {
-				if _, isPhi := Strip(bo.Y).(*ssa.Phi); isPhi {
-					ovl = bo
+	ovlFn := lo
+	for _, sf := range append([]*ssa.Function{lo}, P.LocalCallees(lo)...) {
+		for _, b := range sf.Blocks {
+			for _, in := range b.Instrs {
+				if bo, ok := in.(*ssa.BinOp); ok && bo.Op == token.LSS && VField(fCStart)(bo.X) && ovl == nil {
+					if _, isPhi := Strip(bo.Y).(*ssa.Phi); isPhi {
+						ovl, ovlFn = bo, sf
+					}
 				}
 			}
 		}
 	}
-	if ovl == nil {
+	if ovl != nil && ovlFn != lo {
+		// the check over the sorted content sits in a helper: overlap is refused there, the helper's
+		// refusal fails layOutStructureContent, and the content is sorted before the helper runs
+		c.touch(ovlFn)
+		at := Atom{Name: "content start < previous end", Match: func(cd Cond) Pol {
+			if cd.Bin != ovl {
+				return PolNone
+			}
+			if cd.Neg {
+				return PolFalse
+			}
+			return PolTrue
+		}}
+		okR, found := true, 0
+		for _, b := range ovlFn.Blocks {
+			for si := range b.Succs {
+				if AtomEdges(at)(b, si) {
+					found++
+					if (ReachQ{Fn: ovlFn, From: &Loc{b.Succs[si], -1}, Sink: IsSuccessReturn}).Run().Found {
+						okR = false
+					}
+				}
+			}
+		}
+		c.Check(okR && found > 0, pkg+".layOutStructureContent#content-overlap-refused", ovl.Pos(), "overlapping content => error", "overlapping content images are not refused")
+		var hcalls []ssa.CallInstruction
+		for _, b := range lo.Blocks {
+			for _, in := range b.Instrs {
+				if cc, ok := in.(ssa.CallInstruction); ok && cc.Common().StaticCallee() == ovlFn {
+					hcalls = append(hcalls, cc)
+				}
+			}
+		}
+		sortCalls := CallSites(lo, P.FuncObj("sort.Sort"))
+		if len(hcalls) == 1 && len(sortCalls) == 1 {
+			c.CheckErrPropagated(pkg+".layOutStructureContent#content-overlap-helper-error", lo, hcalls[0], ovlFn.Signature.Results().Len()-1, ovlFn.Name())
+			c.Before(pkg+".layOutStructureContent#sorted-before-overlap-check", lo, SinkIs(sortCalls[0]), "sort.Sort(byContentStartOffset)", hcalls[0], nil)
+		} else {
+			c.Undecided(pkg+".layOutStructureContent#sorted-before-overlap-check", lo.Pos(), "expected one sort.Sort call and one call of the overlap helper")
+		}
+	} else if ovl == nil {
 		c.Undecided(pkg+".layOutStructureContent#content-overlap", lo.Pos(), "the overlap comparison among the sorted content was not found")
 	} else {
 		at := Atom{Name: "content start < previous end", Match: func(cd Cond) Pol {
